@@ -72,8 +72,8 @@ def card(n):
     return 0 if n == 0 else (1 if n == 1 else "many")
 
 
-def run_is_valid(prog, gw, raises: bool):
-    it = gw.interp()
+def run_is_valid(prog, gw, raises: bool, it=None):
+    it = it or gw.interp()
     fi = prog.function("sym_metanet.network", "Network.is_valid")
     try:
         r = it.call_function(FuncV(fi, gw.net, defcls=NET), [], {"raises": raises})
@@ -123,6 +123,14 @@ def run(rep: Report) -> None:
                           key=f"verdict|{_cls(okind)}|{'d' if dkind else '-'}|in={card(tin)}|out={card(tout)}")
                 rep.check(ok or len(msgs) >= 1, "message-on-invalid", inst, where,
                           "invalid verdict without any message", key="nomsg")
+                # the verdict is a function of the network: asking again (same process, same
+                # network) gives the same answer
+                kind2, r2, _ = run_is_valid(prog, gw, False, it=it)
+                same = kind2 == "return" and isinstance(r2, tuple) and len(r2) == 2 and r2[0] == ok \
+                    and len(r2[1]) == len(msgs)
+                rep.check(same, "verdict-repeatable", inst, where,
+                          f"a second is_valid() on the same network gives {r2 if kind2 == 'return' else 'raises ' + r2.exc} "
+                          f"after {r!r}: validation keeps state between calls", key="repeat")
         # ---- raises=True
         gw = build(prog, okind, dkind, n_in, n_out, sl)
         kind, r, it = run_is_valid(prog, gw, True)
